@@ -71,55 +71,44 @@ Proof.
 Qed.
 
 (* ---------------------------------------------------------------- LLDP *)
-Lemma lldp_classified k : forall p pdu pos fuel, wf p -> (len p - pos <= k)%nat -> (k < fuel)%nat ->
-  if lldp_short_tlv k p pdu pos then lldp_get_pdu fuel p pdu pos = Panic
-  else safe (lldp_get_pdu fuel p pdu pos).
+Lemma lldp_get_pdu_safe k : forall p pdu pos fuel, wf p -> (len p - pos <= k)%nat -> (k < fuel)%nat ->
+  safe (lldp_get_pdu fuel p pdu pos).
 Proof.
   induction k as [|k IH]; intros p pdu pos fuel Hw Hk Hf.
-  - cbn [lldp_short_tlv]. destruct fuel as [|f]; [lia|]. cbn [lldp_get_pdu]. unfold lldp_get_tlv.
+  - destruct fuel as [|f]; [lia|]. cbn [lldp_get_pdu]. unfold lldp_get_tlv.
     destruct (Nat.leb_spec (len p) (pos + 2)); [cbn [bind]; sdone|lia].
-  - destruct fuel as [|f]; [lia|]. cbn [lldp_short_tlv lldp_get_pdu]. unfold lldp_get_tlv.
+  - destruct fuel as [|f]; [lia|]. cbn [lldp_get_pdu]. unfold lldp_get_tlv.
     destruct (Nat.leb_spec (len p) (pos + 2)); [cbn [bind]; sdone|].
     repeat (rewrite idx_ok by lia; cbn [bind]).
     set (t := N.to_nat (N.shiftr (nth pos (arr p) 0) 1)).
     set (l := N.to_nat (N.shiftl (N.land (nth pos (arr p) 0) 1) 8 + nth (pos + 1) (arr p) 0)).
     destruct (Nat.eqb t 0 && Nat.eqb l 0); [cbn [bind]; sdone|].
-    destruct (Nat.ltb_spec (pos + 2 + l + 2) (len p)); [|cbn [bind]; sdone].
-    destruct (Nat.ltb_spec l 2).
-    + rewrite sl_panic by lia. reflexivity.
-    + rewrite sl_ok by (unfold wf in Hw; lia). cbn [bind].
-      destruct (Nat.eqb t pdu || Nat.eqb t 0); [sdone|].
-      apply IH; [assumption|lia|lia].
+    destruct (Nat.leb_spec (pos + 2 + l) (len p)); [|cbn [bind]; sdone].
+    rewrite sl_ok by (unfold wf in Hw; lia). cbn [bind].
+    destruct (Nat.eqb t pdu || Nat.eqb t 0); [sdone|].
+    apply IH; [assumption|lia|lia].
 Qed.
 
-Theorem lldp_get_pdu_partial p pdu : wf p -> known_C08_lldp_short_tlv p pdu = false ->
+Theorem lldp_get_pdu_total p pdu : wf p ->
   forall fuel, (len p < fuel)%nat -> safe (lldp_get_pdu fuel p pdu 0).
+Proof. intros Hw fuel Hf. apply (lldp_get_pdu_safe (len p)); [assumption|lia|assumption]. Qed.
+
+Theorem lldp_process_total p pdu : wf p ->
+  forall fuel, (len p < fuel)%nat -> safe (lldp_process fuel p pdu).
 Proof.
-  intros Hw Hk fuel Hf. unfold known_C08_lldp_short_tlv in Hk.
-  pose proof (lldp_classified (len p) p pdu 0%nat fuel Hw ltac:(lia) Hf) as H.
-  rewrite Hk in H. exact H.
+  intros Hw fuel Hf. unfold lldp_process. destruct (Nat.ltb (len p) 6); [sdone|].
+  apply lldp_get_pdu_total; assumption.
 Qed.
 
-Theorem lldp_get_pdu_known_panics p pdu : wf p -> known_C08_lldp_short_tlv p pdu = true ->
-  forall fuel, (len p < fuel)%nat -> lldp_get_pdu fuel p pdu 0 = Panic.
-Proof.
-  intros Hw Hk fuel Hf. unfold known_C08_lldp_short_tlv in Hk.
-  pose proof (lldp_classified (len p) p pdu 0%nat fuel Hw ltac:(lia) Hf) as H.
-  rewrite Hk in H. exact H.
-Qed.
+Theorem upnp_discovery_total f x : safe (upnp_discovery f x).
+Proof. unfold upnp_discovery. destruct f, x; sdone. Qed.
 
+(* the former #7 witness (a TLV of length 1) and a regular chain *)
 Definition lldp_w : bytes := [2; 1; 7; 0; 0; 0; 0; 0].
 Definition lldp_good : bytes := [2; 7; 4; 0; 1; 2; 3; 4; 5; 4; 3; 2; 0; 1; 6; 2; 0; 120; 0; 0; 0; 0; 0].
-Lemma lldp_refuted :
-  bytes_ok lldp_w /\ known_C08_lldp_short_tlv (of_bytes lldp_w) 3 = true /\
-  forall fuel, (8 < fuel)%nat -> lldp_get_pdu fuel (of_bytes lldp_w) 3 0 = Panic.
-Proof.
-  split; [apply bytes_okb_spec; reflexivity|]. split; [reflexivity|].
-  intros fuel Hf. apply lldp_get_pdu_known_panics; [unfold wf, cap; cbn; lia|reflexivity|cbn; lia].
-Qed.
 Lemma lldp_nonvacuous :
-  known_C08_lldp_short_tlv (of_bytes lldp_good) 3 = false /\ lldp_get_pdu 30 (of_bytes lldp_good) 3 0 = Ok tt.
-Proof. split; vm_compute; reflexivity. Qed.
+  bytes_ok lldp_w /\ lldp_get_pdu 30 (of_bytes lldp_w) 3 0 = Ok tt /\ lldp_get_pdu 30 (of_bytes lldp_good) 3 0 = Ok tt.
+Proof. split; [apply bytes_okb_spec; reflexivity|]. split; vm_compute; reflexivity. Qed.
 
 (* ---------------------------------------------------------------- SSDP *)
 Lemma cc_pairs_safe n : forall all i, safe (cc_pairs n all i).
